@@ -38,6 +38,10 @@ def run(check: Check, repo: Repo, tier: str) -> None:
     X.unintegrated_work(check, repo)
     X.abort_callback(check, repo)
     X.handover_owner(check, repo)
+    X.nulled_work_aborted(check, repo)
+    X.hook_after_drain(check, repo)
+    X.advance_close_same_object(check, repo)
+    X.cleanup_settles_pending(check, repo)
     X.future_exception_guard(check, repo, repo.package_modules('execution'))
     from rules import stream_rules as T
 
